@@ -3,6 +3,19 @@ NOTES = ("All checks share one Coq development and one harness; ./check --setup 
          "Fix commits in /repo (F1-F7) are listed in known_findings.json as fixed entries.")
 NOT_APPLICABLE = {}
 CHECKS = {
+    "C03": {
+        "text": "The keystream clause is refuted by proof: for any permutation F, ciphertext byte i < 166 is payload byte i XOR a key-only byte, "
+                "so two reports of one measurement leak the XOR of their payloads on the first block (theorem C03_keystream_reuse_refuted; known "
+                "finding, reported as KNOWN-FINDING). Outside that class (positions >= 166, associated data in the clear, a report window that "
+                "decrypts) the check searches the Rust on every run and reports a violation.",
+        "note": "Partial: 'reveals nothing' beyond the refuted clause is measured, not proved; keys are shared by design (theorem C03_shared_key).",
+    },
+    "C04": {
+        "text": "Proved for any F: all clients of one (measurement, epoch, threshold, randomness) have the same tag, the same key and the same share "
+                "fields except the point; the WASM entry point derives the same material; randomness / tag / key-seed / key derivations are injective "
+                "up to an explicit digest collision, because measurement, epoch and threshold enter as separately framed STROBE operations.",
+        "note": "Partial: share-point freshness is OS randomness (measured). Collision events are explicit disjuncts.",
+    },
     "C01": {
         "text": "Theorem C01_recovery over the Gallina model, for any permutation F in place of Keccak-f: every report survives to_bytes/from_bytes, "
                 "every collection of reports (subset, permutation, repeats, surplus) with t distinct shares recovers the shared value, and every report "
